@@ -15,6 +15,12 @@ CHECKS = {
     design_ref="DESIGN.md section 5 C16",
     note="Trusted: Coq kernel + VM; hand-written model tied by differential correspondence on operation histories; names/values abstracted to naturals (identity up to Python ==).",
     technique="Coq refinement proof (state machine -> history-based scoped-map spec) + correspondence on operation histories"),
+ "C15": dict(
+    category="proof",
+    text="check_oracle, check_oracle_mul, update_stats/save_stats and the end-of-session cleanup of hephaestus.py are transliterated to Gallina over an abstract file system (Driver/Model.v). Properties_C15.v proves for every well-formed batch and verdict: a program is reported iff the tool failed on it, a well-typed file was rejected, an ill-typed file was accepted or the compiler crashed (report_iff), the message clauses (report_messages_ordered; the unconditional form is refuted for an ordering of the programs dict that gen_program never builds), a test case is saved iff the fault is compiler-related (saved_iff), tmp/batch directories are cleaned (batch_cleanup, no_leftovers), and for every session passed+failed equals the programs processed and the faults map lists exactly the reported programs (counters, failed_counter), independent of callback order (update_stats_commutes). Tie: the real hephaestus module runs whole sessions (hephaestus.run(), and check_oracle_mul for worker mode) with scripted compiler output and program generation; after every batch the returned map, STATS, faults.json/stats.json and the directory tree are compared with the model and judged against the statement.",
+    design_ref="DESIGN.md section 5 C15",
+    note="Trusted: Coq kernel + VM; hand-written model tied by differential correspondence on batch histories; compiler and generator are scripted stand-ins; real process pools/signals are outside the model (worker mode is driven through check_oracle_mul + update_stats).",
+    technique="Coq proof over state-machine model of the driver + correspondence on scripted batch histories"),
 }
 
 NOT_APPLICABLE = {
@@ -22,7 +28,7 @@ NOT_APPLICABLE = {
  "C13": "The property is about CPython's pickle applied to ~40 IR classes; a Coq model would be a model of pickle and the only tie to the code would be the round-trip test itself (DESIGN.md section 6).",
 }
 
-PENDING = ["C01","C03","C04","C05","C06","C07","C08","C09","C10","C11","C12","C14","C15","C17","C18"]
+PENDING = ["C01","C03","C04","C05","C06","C07","C08","C09","C10","C11","C12","C14","C17","C18"]
 
 def main():
     checks = []
